@@ -17,10 +17,8 @@ open GunYu
 
 /-! ## ziplist decoder -/
 
-/-- `ReadZiplistEntry2(buf, firstByte)`; `rem` is the buffer after `firstByte` -/
-def zlEntry (firstByte : UInt8) (rem : Bytes) : Option (Bytes × Bytes) :=
-  -- if prevLen < 254 it is one byte, else 5 bytes: `buf.Seek(4, 1)`
-  let rem := if firstByte = 0xFE then rem.drop 4 else rem
+/-- `ReadZiplistEntry2` after the prevlen field: encoding byte(s) and payload -/
+def zlBody (rem : Bytes) : Option (Bytes × Bytes) :=
   match rem with
   | [] => none
   | e :: r =>
@@ -58,6 +56,11 @@ def zlEntry (firstByte : UInt8) (rem : Bytes) : Option (Bytes × Bytes) :=
       let v := e.toNat % 16
       if 1 ≤ v ∧ v ≤ 13 then some (natToDec (v - 1), r) else none
     else none
+
+/-- `ReadZiplistEntry2(buf, firstByte)`; `rem` is the buffer after `firstByte`:
+    if prevLen < 254 it is one byte, else 5 bytes (`buf.Seek(4, 1)`) -/
+def zlEntry (firstByte : UInt8) (rem : Bytes) : Option (Bytes × Bytes) :=
+  zlBody (if firstByte = 0xFE then rem.drop 4 else rem)
 
 /-- the iterator state after `NewZiplist` -/
 structure ZlIter where
@@ -289,12 +292,14 @@ def zipmapAll (data : Bytes) : Option (List (Bytes × Bytes)) :=
   | [] => none
   | lenByte :: r => if lenByte.toNat ≥ 254 then none else zmPairs lenByte.toNat r
 
+/-- one zipmap item: `<len>field<len><free>value<free bytes>` -/
+def zipmapItem (i : Bytes × Bytes × Nat) : Bytes :=
+  UInt8.ofNat i.1.length :: (i.1 ++ UInt8.ofNat i.2.1.length :: UInt8.ofNat i.2.2 :: (i.2.1 ++ List.replicate i.2.2 0))
+
 /-- zipmap.c layout, items shorter than 253 bytes, `free` bytes of slack after a value:
     `<zmlen><len>field<len><free>value<free bytes>...<0xFF>` -/
 def zipmapBlob (items : List (Bytes × Bytes × Nat)) : Bytes :=
   UInt8.ofNat items.length ::
-    (items.flatMap (fun (f, v, free) =>
-      UInt8.ofNat f.length :: f ++ (UInt8.ofNat v.length :: UInt8.ofNat free :: v) ++ List.replicate free 0)
-     ++ [0xFF])
+    (items.flatMap zipmapItem ++ [0xFF])
 
 end GunYu.Rdb
